@@ -275,7 +275,111 @@ CORPUS = [
 ]
 
 
+def e2e_script_one(chk, sseed, directed=False, ratio=None):
+    """whole runs over a history of upstream versions, twice: world A with automatic cleaning, world B writing clean scripts
+    (`_autoclean 0`) which are then executed (`sh var/clean.sh`) after every run; the two mirrors must be equal after every
+    step - also when a wipe ratio is reached in some step (then neither may remove anything, and a script left by an earlier
+    run must not do so either)"""
+    from core import vloop
+    from e2e import common, observe, runner
+    base = random.Random(sseed)
+    ratios = base.choice([{}, {}, {"wipe_size_ratio": "0.05", "wipe_count_ratio": "0.05"}, {"wipe_size_ratio": "0.3"},
+                          {"wipe_count_ratio": "0.2"}, {"wipe_size_ratio": "0", "wipe_count_ratio": "0"}])
+    if directed == "rollback":
+        # V1, V2, V1 with a wipe ratio that the first update stays below and the way back reaches (or the other way round)
+        ratios = base.choice([{"wipe_count_ratio": "0.3"}, {"wipe_size_ratio": "0.3"}, {"wipe_count_ratio": "0.5", "wipe_size_ratio": "0.5"}])
+        if ratio is not None:
+            ratios = {"wipe_count_ratio": str(ratio)}
+    elif directed:
+        ratios = {"wipe_size_ratio": "0", "wipe_count_ratio": "0"}   # small worlds reach the default ratios at once
+    nrep = base.randint(1, 2) if not directed else 2
+    # one repository of two may fail persistently from its first run on (a required index never arrives): it is then never
+    # cleaned and never gets a clean script of its own, which must not keep the other repository from being cleaned
+    fail_one = (nrep == 2 and base.random() < 0.45) or directed is True
+    wa = common.World(random.Random(sseed + "-w"), nrep, settings=dict(ratios, _autoclean="1"), name="sbA")
+    wb = common.World(random.Random(sseed + "-w"), nrep, settings=dict(ratios, _autoclean="0"), name="sbB")
+    try:
+        hist = random.Random(sseed + "-h")
+        versions = [wa.repos]
+        from e2e import scenario as _sc
+
+        def evolve_with_removals(r):
+            """a next version that no longer references some pool file of the current one (so that there is something to clean)"""
+            cfg = wa.cfgs[r["url"]]
+            old = set(_sc.referenced_pool(r, cfg))
+            new = common.evolve(hist, r)
+            for _ in range(25):
+                if old - set(_sc.referenced_pool(new, cfg)):
+                    break
+                new = common.evolve(hist, new)
+            else:
+                chk.count("e2e_directed_without_removal")
+            return new
+        for _ in range(base.randint(1, 3) if not directed else 2):
+            if not directed and len(versions) >= 2 and base.random() < 0.35:
+                # the upstream goes back to an earlier state: files removed (or scheduled for removal) before are needed again
+                versions.append(versions[base.randrange(len(versions) - 1)])
+                chk.count("e2e_history_rollbacks")
+            else:
+                versions.append([evolve_with_removals(r) if directed else common.evolve(hist, r) for r in versions[-1]])
+        if directed == "rollback":
+            versions = [versions[0], versions[1], versions[0]]
+            fail_one = False
+        replay = {"scenario_seed": sseed, "e2e_script": True, "ratios": ratios, "lines": wa.lines, "versions": len(versions),
+                  "failing_repository": fail_one, "directed": directed, "ratio": ratio}
+        from e2e import scenario
+        bad = (0 if directed else base.randrange(2)) if fail_one else None
+        for step, vs in enumerate(versions):
+            sched = hist.randrange(1 << 30)
+            plans = {}
+            if fail_one:
+                if step > 0:
+                    vs = list(vs)
+                    vs[bad] = versions[0][bad]   # the failing repository's upstream does not move
+                u = vs[bad]["url"]
+                plans[u], _ = scenario.gen_plan(random.Random(sseed + "-p"), "persistent-required", vs[bad], wa.cfgs[u], wa.stores(vs)[u])
+            ra = wa.run(repos=vs, plans=plans, chooser=vloop.RandomChooser(sched))
+            rb = wb.run(repos=vs, plans=plans, chooser=vloop.RandomChooser(sched))
+            if ra.exit != rb.exit:
+                chk.violation("script-mode-changes-exit", dict(replay, step=step), f"exit {ra.exit} with autoclean, {rb.exit} with clean scripts")
+                return
+            script = os.path.join(wb.sb.var, "clean.sh")
+            ran = None
+            if os.path.exists(script):
+                r = subprocess.run(["/bin/sh", script], capture_output=True, text=True, cwd=wb.sb.top)
+                ran = r.returncode
+                chk.count("e2e_clean_scripts_executed")
+                if r.returncode != 0:
+                    chk.count("e2e_clean_scripts_exiting_nonzero")
+            for rp in vs:
+                url = rp["url"]
+                la = observe.pool_listing(runner.mirror_dir(wa.sb, url))
+                lb = observe.pool_listing(runner.mirror_dir(wb.sb, url))
+                if la != lb:
+                    only_a = [x for x in la if x not in lb][:3]
+                    only_b = [x for x in lb if x not in la][:3]
+                    chk.violation("script-differs:e2e" + (":failed-repository-without-script" if fail_one and ran not in (0, None) else ""),
+                                  dict(replay, step=step, repository=url),
+                                  f"after run {step} (+ clean.sh rc={ran}): only with autoclean {only_a}, only with script {only_b}")
+                    return
+        chk.evaluated(("e2e-script", len(versions), tuple(sorted(ratios))), sample={"e2e_script": True, "versions": len(versions), "ratios": ratios})
+        chk.traces += 2 * len(versions)
+    finally:
+        from e2e import run_e2e
+        run_e2e.flush_l2(chk, {"scenario_seed": sseed, "e2e_script": True})
+        wa.destroy()
+        wb.destroy()
+
+
 def run(chk, tier, rng):
+    for i in range(6 if tier == "quick" else 40):
+        e2e_script_one(chk, f"C04ed-{chk.seed}-{i}", directed=True)   # corpus: the first configured repository never succeeds
+    # V1, V2, V1 under a grid of wipe ratios: for some of them the update stays below the ratio and the way back reaches it
+    for i in range(3 if tier == "quick" else 40):
+        for ratio in (0.03, 0.08, 0.15, 0.25, 0.4):
+            e2e_script_one(chk, f"C04er-{chk.seed}-{i}", directed="rollback", ratio=ratio)
+    for i in range(10 if tier == "quick" else 300):
+        e2e_script_one(chk, f"C04e-{chk.seed}-{i}")
     for i, (tree, keep) in enumerate(CORPUS):
         check_tree(chk, tree, keep, None, None, f"corpus{i}")
         chk.count("corpus_scenarios")
@@ -318,6 +422,11 @@ def replay(rep):
     chk = Check("C04", "quick", 0)
     chk.known = []
     r = rep["replay"]
+    if r.get("e2e_script"):
+        e2e_script_one(chk, r["scenario_seed"], r.get("directed", False), r.get("ratio"))
+        for sig, path, msg, _ in chk.violations:
+            print(f"REPLAY VIOLATION {sig}: {msg}")
+        return 1 if chk.violations else 0
     check_tree(chk, r["tree"], r["keep"], tuple(r["size_ratio"]) if r.get("size_ratio") else None,
                tuple(r["count_ratio"]) if r.get("count_ratio") else None, "replay")
     for sig, path, msg, _ in chk.violations:
